@@ -632,15 +632,17 @@ func readEvents(path string) ([]violation, stats) {
 			json.Unmarshal(sc.Bytes(), &v)
 			vs = append(vs, v)
 		case "stats":
+			// cumulative: the last record of the file counts
 			var s struct {
 				Counters map[string]int64 `json:"counters"`
 				Samples  []any            `json:"samples"`
 			}
 			json.Unmarshal(sc.Bytes(), &s)
+			st.counters = map[string]int64{}
 			for k, v := range s.Counters {
-				st.counters[k] += v
+				st.counters[k] = v
 			}
-			st.samples = append(st.samples, s.Samples...)
+			st.samples = s.Samples
 		}
 	}
 	return vs, st
